@@ -1,5 +1,6 @@
 import Gsd.Generated.Facts
 import Gsd.Model.AList
+import Gsd.Model.Bytes
 /-!
 C08 / C04 — model of `MetricAggregator.Flush` / `Reset` (pkg/statsd/aggregator.go), of
 `latencyHistogram` / `emptyHistogram` / `retrieveThresholds` (pkg/statsd/latency_histogram.go) and of
@@ -17,7 +18,6 @@ Core-only (no Mathlib): the `gsdmodel` executable links this file.
 -/
 namespace Gsd
 
-abbrev Bytes := List UInt8
 
 /-- The arithmetic used by `Flush`.  `toInt` is Go's `int(x)` (truncation towards zero). -/
 class Num (α : Type) where
